@@ -560,6 +560,10 @@ def oracle(case, obs):
             if gone:
                 yield ("the last @namespace rule of a URI still used by a selector was deleted (%s)" % sorted(gone),
                        i, feats)
+            if o["outcome"] not in ("ok", "skip") and \
+                    (o["rules"], o["pairs"], o["others"], o["view"]) != \
+                    (prev["rules"], prev["pairs"], prev["others"], prev["view"]):
+                yield ("a rejected operation changed the sheet", i, feats)
             if o["outcome"] not in ("ok", "skip", "IndexSizeErr", "HierarchyRequestErr", "NoModificationAllowedErr",
                                     "NamespaceErr", "SyntaxErr"):
                 yield ("operation raised %s" % o["outcome"], i, feats)
